@@ -35,6 +35,8 @@ CONFIGS = [
     ("async-tolerant-field", "async", Cfg("async", True, True, "facade"), "status", 2, False, False),
     ("plain+async-listener", "plain", Cfg("async", True, False, "facade"), "state", None, False, True),
     ("plain+async-model", "plain", Cfg("async", True, True, "facade"), "state", None, True, False),
+    ("listener-only-action", "lis", Cfg("sync", True, False, "direct"), "state", None, False, False),
+    ("listener-only-action-async", "lis", Cfg("async", True, False, "facade"), "state", None, False, True),
 ]
 VALUES = ("s0", 0, "")
 MECHS = ("deepcopy", "pickle", "deepcopy-of-deepcopy", "pickle-of-deepcopy")
